@@ -851,7 +851,7 @@ def replay_events(tree, events, norm):
                     rm(d)
                     for q, v in sub.items():
                         tree[d + q[len(s) :]] = v
-                    tree[d] = kind if d not in tree else tree[d]
+                    tree[d] = kind  # the moved event carries the flavour of the entry
                 else:
                     rm(d)
                     tree[d] = kind
